@@ -117,7 +117,7 @@ func execMeasure(e *MeasureEv) {
 		a2b, a2intb, bb, pipb, rcb = run()
 	})
 	e.Det = e.A2Int == a2intb && e.B == bb && e.Pip == pipb && e.Rect == rcb && e.A2.S == a2b.S && len(e.A2.M) == len(a2b.M)
-	e.ArgsSame = equalPaths(Paths{p0}, Paths{e.Path})
+	e.ArgsSame = equalPaths(Paths{p0}, Paths{e.Path}) && argsUnchanged()
 	if e.Set == nil {
 		e.Set = Paths{}
 	}
@@ -240,7 +240,7 @@ func execTrim(r *rand.Rand, e *TrimEv) {
 	e.Det = equalPaths(Paths{from64(res)}, Paths{from64(resb)})
 	res, res2 = back(res), back(res2)
 	e.Res, e.Res2 = from64(res), from64(res2)
-	e.ArgsSame = equalPaths(Paths{p0}, Paths{e.Path})
+	e.ArgsSame = equalPaths(Paths{p0}, Paths{e.Path}) && argsUnchanged()
 	// probes: a few points of the bounding box; the spec keeps those off the input boundary
 	e.Probes = []Pt{}
 	if b, ok := boundsOf(Paths{e.Path}); ok && !e.IsOpen {
@@ -465,7 +465,7 @@ func execSimplify(r *rand.Rand, e *SimplifyEv) {
 		e.Res, e.Removed, e.Out = runSimplify(e.Api, tp, eps, e.Closed)
 		res2, _, _ = runSimplify(e.Api, tp, eps, e.Closed)
 		e.Det = equalPaths(Paths{e.Res}, Paths{res2})
-		e.ArgsSame = equalPaths(Paths{shifted(p0, 1)}, Paths{tp})
+		e.ArgsSame = equalPaths(Paths{shifted(p0, 1)}, Paths{tp}) && argsUnchanged()
 		e.Res = shifted(e.Res, -1)
 		e.Vars = []SimpVar{}
 		e.Nontriv = len(e.Removed) > 0 && len(e.Res) > 2
@@ -474,7 +474,7 @@ func execSimplify(r *rand.Rand, e *SimplifyEv) {
 	e.Res, e.Removed, e.Out = runSimplify(e.Api, e.Path, eps, e.Closed)
 	res2, _, _ = runSimplify(e.Api, e.Path, eps, e.Closed)
 	e.Det = equalPaths(Paths{e.Res}, Paths{res2})
-	e.ArgsSame = equalPaths(Paths{p0}, Paths{e.Path})
+	e.ArgsSame = equalPaths(Paths{p0}, Paths{e.Path}) && argsUnchanged()
 	if e.Res == nil {
 		e.Res = Path{}
 	}
